@@ -60,6 +60,7 @@ type tsim struct {
 	cache bool
 	errOnMissing bool
 	useShimCommit bool
+	liveAtBranch bool // knob: read a key that ends at a valueless in-memory branch through the live instance
 	null  hash.H256
 	cps   []commitPoint
 	dirty int  // operations since the last commit
@@ -143,6 +144,7 @@ func runTrieDB(k *kernel.K) {
 	s.cache = k.Bool(1, 2, "knob-cache")
 	s.errOnMissing = k.Bool(1, 3, "knob-missing-key-is-ErrNotFound")
 	s.useShimCommit = k.Bool(1, 3, "knob-commit-directly")
+	s.liveAtBranch = k.Bool(1, 8, "knob-live-get-at-valueless-branch")
 	if s.cache {
 		k.Probe("cache-on")
 	} else {
@@ -241,11 +243,35 @@ func (s *tsim) del() {
 // statement only speaks about the root and about a FRESH instance, so a
 // difference here is counted as a probe, not reported as a violation.
 func (s *tsim) liveGet(key []byte) {
+	if endsAtValuelessBranch(s.model, key) {
+		// Get on an instance with uncommitted changes panics for a key that ends exactly
+		// at an in-memory branch without value (inMemoryFetchedValue(nil), node.go:149).
+		// Live reads are outside the statement, so this input is only tried under a knob.
+		if !s.liveAtBranch {
+			return
+		}
+		s.k.Probe("live-get-at-valueless-branch")
+	}
 	got := s.t.Get(cp(key))
 	want, ok := s.model.Get(key)
 	if (ok && !bytes.Equal(got, want)) || (!ok && got != nil) {
 		s.k.Probe("live-get-differs-from-map(not-asserted)")
 	}
+}
+
+// endsAtValuelessBranch: key is absent and is exactly the path of a branch node
+// (at least two stored keys extend it and diverge right after it).
+func endsAtValuelessBranch(m *su.RefMap, key []byte) bool {
+	if _, ok := m.Get(key); ok {
+		return false
+	}
+	ext := m.KeysWithPrefix(key)
+	if len(ext) < 2 {
+		return false
+	}
+	a, b := nibblesOf(ext[0]), nibblesOf(ext[len(ext)-1])
+	n := 2 * len(key)
+	return a[n] != b[n]
 }
 
 func hasLen(m *su.RefMap, n int) bool {
